@@ -147,6 +147,18 @@ func main() {
 		hd(4, 4, honest(1), conn("st1", 0, 0, both, both, "ok"), honest(1), honest(0))
 		hd(4, 4, honest(0), conn("-", 0, 0, cbc, both, "ok"), conn("-", 0, 0, both, cbc, "ok"), honest(0))
 		hd(4, 4, conn("-", 0, 0, gcm, both, "ok"), conn("-", 0, 0, both, cbc, "ok"), conn("-", 0, 0, gcm, cbc, "ok"))
+		// a session that was OFFERED but not accepted, in a connection that then fails at the client, must
+		// not be offered again (the cleanup covers every error, not only failed resumptions):
+		//   server cache lost + damaged server Finished; the destination now reaches the other server +
+		//   damaged Finished; a stale id + damaged Finished; no common suite (alert before any ServerHello);
+		//   each followed by connections to the original server
+		hd(4, 4, honest(0), conn("sl", 0, 0, both, both, "sf"), honest(0), honest(0))
+		hd(4, 4, honest(0), conn("-", 0, 1, both, both, "sf"), honest(0), honest(0))
+		hd(4, 4, honest(0), conn("-", 0, 1, both, both, "cf"), honest(0), honest(0))
+		hd(4, 4, honest(0), honest(1), conn("st1", 0, 0, both, both, "sf"), honest(0), honest(1))
+		hd(4, 4, honest(0), conn("-", 0, 0, gcm, cbc, "ok"), honest(0), honest(0))
+		hd(4, 4, conn("-", 0, 0, gcm, both, "ok"), conn("-", 0, 0, cbc, both, "sf"), conn("-", 0, 0, gcm, both, "ok"))
+		hd(1, 4, honest(0), conn("sl", 0, 0, both, both, "cf"), honest(0))
 		// two servers interleaved; the same destination reaching the other server; server-side eviction
 		hd(4, 4, honest(0), honest(1), honest(0), honest(1))
 		hd(4, 4, honest(0), conn("-", 0, 1, both, both, "ok"), honest(0))
@@ -171,6 +183,25 @@ func main() {
 			cs := make([]string, ln)
 			for j := range cs {
 				cs[j] = randomConn(r, ccap)
+			}
+			if ln >= 3 && r.Chance(25) {
+				// offered-but-not-accepted session in a connection that fails at the client, then the
+				// original server again
+				d := r.Intn(2)
+				k := r.Intn(ln - 2)
+				cs[k] = honest(d)
+				fault := hx.Pick(r, []string{"sf", "sf", "cf"})
+				switch r.Intn(4) {
+				case 0:
+					cs[k+1] = conn("sl", d, d, both, both, fault)
+				case 1:
+					cs[k+1] = conn("-", d, 1-d, both, both, fault)
+				case 2:
+					cs[k+1] = conn("-", d, d, gcm, cbc, "ok")
+				default:
+					cs[k+1] = conn("j1", d, 1-d, both, cbc+"."+gcm, fault)
+				}
+				cs[k+2] = honest(d)
 			}
 			emit(fmt.Sprintf("stack=%s ccap=%d scap=%d hist=%s", st, ccap, scap, strings.Join(cs, ",")))
 		}
